@@ -1449,7 +1449,10 @@ func cmpRun[T cmp.Ordered](a, b T, compIdx int, rank func(T) int, r *pbt.R) erro
 
 // specialFloats: operands whose comparison is not what a naive or "improved" ordering would give: the two zeros are
 // equal and neither is less; NaN is neither less than, nor equal to, anything (itself included).
-var specialFloats = []float64{math.NaN(), math.Copysign(0, -1), 0, math.Inf(-1), math.Inf(1), 1.5, -1.5}
+// Neighbouring representable values (0.3 and 0.1+0.2, 1e300 and the next one, zero and the smallest subnormal, +-1e-10)
+// are different and ordered: equality or ordering "up to a tolerance" is not what the comparator helpers promise.
+var specialFloats = []float64{math.NaN(), math.Copysign(0, -1), 0, math.Inf(-1), math.Inf(1), 1.5, -1.5,
+	0.3, 0.1 + 0.2, 1e300, math.Nextafter(1e300, math.Inf(1)), 5e-324, -5e-324, 1e-10, -1e-10, 1, math.Nextafter(1, 2)}
 
 // cmpSpecial: Less and Equal on every ordered pair of specialFloats reflect < and == of the language.
 func cmpSpecial() error {
@@ -1474,6 +1477,16 @@ func cmpSpecial() error {
 			a32, b32 := float32(a), float32(b)
 			if got := gogu.Less(a32, b32); got != (a32 < b32) {
 				return fmt.Errorf("Less[float32](%v, %v) = %v", a32, b32, got)
+			}
+			if got := gogu.Equal(a32, b32); got != (a32 == b32) {
+				return fmt.Errorf("Equal[float32](%v, %v) = %v, but == is %v", a32, b32, got, a32 == b32)
+			}
+			n32 := math.Nextafter32(a32, float32(math.Inf(1)))
+			if got := gogu.Equal(a32, n32); got != (a32 == n32) {
+				return fmt.Errorf("Equal[float32](%v, %v) = %v, but == is %v (neighbouring values)", a32, n32, got, a32 == n32)
+			}
+			if got := gogu.Less(a32, n32); got != (a32 < n32) {
+				return fmt.Errorf("Less[float32](%v, %v) = %v, but < is %v (neighbouring values)", a32, n32, got, a32 < n32)
 			}
 		}
 	}
@@ -1504,12 +1517,21 @@ const (
 	rkInt64
 	rkInt16
 	rkFloat32 // arguments are code/4
+	rkNamedInt   // type level int: a defined type, same progression
+	rkNamedFloat // type ratio float64, arguments are code/4
+	rkNamedInt8  // type grade int8
 	nRangeKinds
+)
+
+type (
+	level int
+	ratio float64
+	grade int8
 )
 
 const nRangeEnumKinds = 3 // int, int8, float64
 
-var rangeKindNames = []string{"int", "int8", "float64", "int64", "int16", "float32"}
+var rangeKindNames = []string{"int", "int8", "float64", "int64", "int16", "float32", "level (defined as int)", "ratio (defined as float64)", "grade (defined as int8)"}
 
 type rangeCase struct {
 	Args []int `json:"args"`
@@ -1541,7 +1563,7 @@ func rangeEnum(s pbt.Src, thorough bool) rangeCase {
 func rangeGen(s pbt.Src, _ bool) rangeCase {
 	c := rangeCase{Kind: s.Intn(nRangeKinds), Args: []int{}}
 	width := pbt.Pick(s, 12, 40, 300)
-	if c.Kind == rkInt8 {
+	if c.Kind == rkInt8 || c.Kind == rkNamedInt8 {
 		width = pbt.Pick(s, 12, 40)
 	}
 	n := pbt.Pick(s, 0, 1, 1, 2, 2, 2, 3, 3, 3, 3, 3, 3, 3, 3, 4, 5)
@@ -1611,7 +1633,7 @@ func refRange(args []int, unit int) (want []int, errWant, errOpt bool) {
 }
 
 func rangeUnit(kind int) int {
-	if kind == rkFloat64 || kind == rkFloat32 {
+	if kind == rkFloat64 || kind == rkFloat32 || kind == rkNamedFloat {
 		return 4
 	}
 	return 1
@@ -1677,7 +1699,7 @@ func rangeProp(c rangeCase, r *pbt.R) error {
 	k := norm(c.Kind, nRangeKinds)
 	limit := 100000
 	switch k {
-	case rkInt8:
+	case rkInt8, rkNamedInt8:
 		limit = 60 // start/end +- |step| stays inside int8
 	case rkInt16:
 		limit = 16000
@@ -1703,6 +1725,12 @@ func rangeProp(c rangeCase, r *pbt.R) error {
 		err = rangeRun(c.Args, fltOf, typ)
 	case rkFloat32:
 		err = rangeRun(c.Args, func(v int) float32 { return float32(v) / 4 }, typ)
+	case rkNamedInt:
+		err = rangeRun(c.Args, func(v int) level { return level(v) }, typ)
+	case rkNamedFloat:
+		err = rangeRun(c.Args, func(v int) ratio { return ratio(v) / 4 }, typ)
+	case rkNamedInt8:
+		err = rangeRun(c.Args, func(v int) grade { return grade(v) }, typ)
 	}
 	if err != nil {
 		return err
